@@ -221,6 +221,9 @@ B("c01-rename-quad-args", "C01", CVF, "            quad_args = (*quad_args, *reg
 # ----------------------------------------------------------------------------- C17
 RSF = "esf/result.py"
 OUF = "output.py"
+M("c17-entry-wrong-card", "C17", "output.py", "        return self.apply_pdf_theory(lhapdf_like, self.theory)", "        return self.apply_pdf_theory(lhapdf_like, self.observables)", expect="C17.entry")
+M("c17-masked-inverted", "C17", "output.py", "return self.parent.xfxQ2(pid, x, Q2) if pid in self.active_pids else 0.0", "return self.parent.xfxQ2(pid, x, Q2) if abs(pid) in self.active_pids else 0.0", expect="C17.entry")
+B("c17-masked-early-return", "C17", "output.py", "        return self.parent.xfxQ2(pid, x, Q2) if pid in self.active_pids else 0.0", "        if pid not in self.active_pids:\n            return 0.0\n        return self.parent.xfxQ2(pid, x, Q2)")
 M("c17-swap-log-index", "C17", RSF, "            lnF = 1.0 if o[3] == 0 else (np.log((1 / xiF) ** 2)) ** o[3]\n            lnR = 1.0 if o[2] == 0 else (np.log((1 / xiR) ** 2)) ** o[2]", "            lnF = 1.0 if o[2] == 0 else (np.log((1 / xiF) ** 2)) ** o[2]\n            lnR = 1.0 if o[3] == 0 else (np.log((1 / xiR) ** 2)) ** o[3]", expect="C17.formula")
 M("c17-no-over-z", "C17", RSF, "lhapdf_like.xfxQ2(pid, z, muF2) / z for z in xgrid", "lhapdf_like.xfxQ2(pid, z, muF2) for z in xgrid", expect="C17.formula")
 M("c17-muf-xir", "C17", RSF, "        muF2 = self.Q2 * xiF**2", "        muF2 = self.Q2 * xiR**2", expect="C17.formula")
@@ -286,6 +289,9 @@ B("c04-f3-inline", "C04", NLF + "f3.py", "    return f2.ns_reg(z, args) - 2 * CF
 
 # ----------------------------------------------------------------------------- C08
 M("c08-delete-asy-nnlo", "C08", CFD + "asy/f2_nc.py", "class AsyNLLGluon(AsyGluon):\n    def NLO(self):\n        def cg_NLL_NLO(z, _args):\n            return raw_nc.c2g1am0_a0(z)\n\n        return RSL(cg_NLL_NLO, args=[self.L])\n\n    def NNLO(self):", "class AsyNLLGluon(AsyGluon):\n    def NLO(self):\n        def cg_NLL_NLO(z, _args):\n            return raw_nc.c2g1am0_a0(z)\n\n        return RSL(cg_NLL_NLO, args=[self.L])\n\n    def NNLO_disabled(self):", expect=None)
+M("c08-fl-adler-back", "C08", CFD + "heavy/fl_nc.py", "        return RSL(dq)\n", "        return RSL(dq, loc=lambda _x, _args: -LeProHQ.Adler(\"FL\", \"VV\", self._xi))\n", expect="C08.local")
+M("c08-f2-adler-gone", "C08", CFD + "heavy/f2_nc.py", "        return RSL(dq, loc=Adler)", "        return RSL(dq)", expect="C08.local")
+B("c08-f2-adler-named", "C08", CFD + "heavy/f2_nc.py", "        return RSL(dq, loc=Adler)", "        virtual = Adler\n        return RSL(dq, None, virtual)")
 M("c08-rename-asy-class", "C08", CFD + "asy/f2_nc.py", "class AsyNNLLSinglet(AsySinglet):", "class AsyN2LLSinglet(AsySinglet):", expect="C08.support")
 M("c08-asy-ll-only", "C08", CFD + "asy/kernels.py", "                for res in range(pto_evol + 1):\n                    name = \"Asy\" + (\"N\" * res) + \"LL\" + channel", "                for res in range(1):\n                    name = \"Asy\" + (\"N\" * res) + \"LL\" + channel", expect=None)
 M("c08-asy-weights", "C08", CFD + "asy/kernels.py", "        asy_weights = heavy.kernels.nc_weights(\n            esf.info.coupling_constants,\n            esf.Q2,\n            nf,\n            ihq,\n            is_pv,\n        )", "        asy_weights = heavy.kernels.nc_weights(\n            esf.info.coupling_constants,\n            esf.Q2,\n            nf,\n            ihq + 1 if ihq < 6 else ihq,\n            is_pv,\n        )", expect="C08.support")
